@@ -733,6 +733,10 @@ func showInJSON(env *env, out io.Writer, value any) error {
 		return err
 	case reflect.Slice:
 		if b, ok := value.([]byte); ok {
+			if b == nil {
+				s = "null"
+				break
+			}
 			w := newStringWriter(out)
 			return escapeBytes(w, b, true)
 		}
